@@ -295,8 +295,21 @@ impl Sub for Duration {
         rhs.normalize();
         match self.centuries.checked_sub(rhs.centuries) {
             None => {
-                // Underflowed, so we've hit the min
-                return Self::MIN;
+                if self.centuries < 0 {
+                    // Underflowed, so we've hit the min
+                    return Self::MIN;
+                }
+                // Overflowed on the positive side: the difference is only representable if it is exactly
+                // one century too many and the nanoseconds borrow that century back.
+                if i32::from(self.centuries) - i32::from(rhs.centuries) == i32::from(i16::MAX) + 1
+                    && self.nanoseconds < rhs.nanoseconds
+                {
+                    return Self::from_parts(
+                        i16::MAX,
+                        NANOSECONDS_PER_CENTURY - (rhs.nanoseconds - self.nanoseconds),
+                    );
+                }
+                return Self::MAX;
             }
             Some(centuries) => {
                 self.centuries = centuries;
